@@ -11,7 +11,9 @@ the model finds no source for a required field.
 import copy
 import inspect
 import random
-from dataclasses import field, fields, is_dataclass, make_dataclass
+import typing
+from dataclasses import dataclass, field, fields, is_dataclass, make_dataclass
+from typing import Dict, List, Optional
 
 import lib
 from lib import CoqEval, coq_list, coq_str
@@ -250,6 +252,118 @@ def show(o):
     return f"?{o!r}"
 
 
+# ----------------------------------------------------------------------------------------------------------------------
+# models inside Optional / iterables / dicts: an independent restatement of the rule as the oracle
+def _shape_types(shape, leaf):
+    k = shape[0]
+    if k == "model":
+        return leaf
+    inner = _shape_types(shape[1], leaf)
+    return {"list": List[inner], "opt": Optional[inner], "dict": Dict[str, inner], "seq": typing.Sequence[inner]}[k]
+
+
+def _shape_values(shape, r, mk, depth=0):
+    k = shape[0]
+    if k == "model":
+        return mk()
+    if k == "opt":
+        return None if r.random() < 0.3 else _shape_values(shape[1], r, mk, depth + 1)
+    n = r.choice([0, 0, 1, 2])          # empty containers are as good as any
+    if k in ("list", "seq"):
+        return [_shape_values(shape[1], r, mk, depth + 1) for _ in range(n)]
+    return {f"k{i}": _shape_values(shape[1], r, mk, depth + 1) for i in range(n)}
+
+
+def _shape_map(shape, v, f):
+    k = shape[0]
+    if k == "model":
+        return f(v)
+    if k == "opt":
+        return None if v is None else _shape_map(shape[1], v, f)
+    if k == "list":
+        return [_shape_map(shape[1], x, f) for x in v]
+    if k == "seq":
+        return tuple(_shape_map(shape[1], x, f) for x in v)
+    return {kk: _shape_map(shape[1], x, f) for kk, x in v.items()}
+
+
+SHAPES = [("list", ("model",)), ("opt", ("model",)), ("dict", ("model",)), ("seq", ("model",)), ("opt", ("list", ("model",))),
+          ("list", ("opt", ("model",))), ("dict", ("list", ("model",))), ("opt", ("dict", ("model",))), ("list", ("list", ("model",)))]
+
+
+def container_block(rep, r, tier):
+    from adaptix import P
+    from adaptix.conversion import coercer, from_param, impl_converter, link, link_constant
+
+    @dataclass
+    class SI:
+        id: int
+        name: int
+        extra: int = 0
+
+    @dataclass
+    class DI:
+        id: int
+        name: int
+        label: int
+
+    n = 0
+
+    def report(sig, what, **kw):
+        rep.violation(f"containers:{sig}", "property-violated", dict(kw, what=what))
+
+    for shape in SHAPES:
+        ST, DT = _shape_types(shape, SI), _shape_types(shape, DI)
+        # (1) the converter's own argument / result is a container of models; an extra parameter is named like a field of
+        #     the element models and is consumed by a link: it wins for top-level fields only, and there are none here
+        ns = {"ST": ST, "DT": DT}
+        exec("def stub(xs: ST, name: int) -> DT: ...", ns)  # noqa: S102
+        try:
+            conv = impl_converter(recipe=[link(from_param("name"), P[DI].label)])(ns["stub"])
+        except Exception as e:  # noqa: BLE001
+            report(f"top:{shape}:creation", f"creating a converter {ST} -> {DT} raises {type(e).__name__}: {str(e)[:120]}")
+            continue
+        for _ in range(4 if tier == "quick" else 20):
+            v = _shape_values(shape, r, lambda: SI(r.randint(1, 9), r.randint(10, 19), r.randint(20, 29)))
+            pv = r.randint(100, 199)
+            snap = copy.deepcopy(v)
+            n += 1
+            try:
+                got = conv(v, pv)
+            except Exception as e:  # noqa: BLE001
+                got = f"raises {type(e).__name__}: {str(e)[:80]}"
+            exp = _shape_map(shape, v, lambda s: DI(s.id, s.name, pv))
+            if got != exp or (shape[0] == "seq" and False):
+                report(f"top:{shape[0]}", "a converter between containers of models differs from the element-wise construction",
+                       shape=repr(shape), argument=repr(v), parameter=pv, expected=repr(exp), got=repr(got))
+            if v != snap:
+                report("source-modified", "the converter modified its argument", shape=repr(shape))
+        # (2) the same containers as fields of a model, together with scalar Optional fields that need a real coercer
+        SO = make_dataclass("SO", [("items", ST), ("rating", Optional[int]), ("k", int)])
+        DO = make_dataclass("DO", [("items", DT), ("rating", Optional[str]), ("k", int)])
+        ns = {"SO": SO, "DO": DO}
+        exec("def stub2(o: SO) -> DO: ...", ns)  # noqa: S102
+        try:
+            conv2 = impl_converter(recipe=[link_constant(P[DI].label, value=7), coercer(int, str, func=lambda x: f"<{x}>")])(ns["stub2"])
+        except Exception as e:  # noqa: BLE001
+            report(f"field:{shape}:creation", f"creating a converter for a model with a field {ST} raises {type(e).__name__}: {str(e)[:120]}")
+            continue
+        for _ in range(5 if tier == "quick" else 25):
+            v = _shape_values(shape, r, lambda: SI(r.randint(1, 9), r.randint(10, 19)))
+            rating = r.choice([None, 0, 0, 5])
+            o = SO(v, rating, r.randint(0, 3))
+            n += 1
+            try:
+                got = conv2(o)
+            except Exception as e:  # noqa: BLE001
+                got = f"raises {type(e).__name__}: {str(e)[:80]}"
+            exp = DO(_shape_map(shape, v, lambda s: DI(s.id, s.name, 7)), None if rating is None else f"<{rating}>", o.k)
+            if got != exp:
+                report(f"field:{shape[0]}", "a model field holding models inside Optional / iterable / dict (or an Optional scalar with a "
+                       "coercer) is not converted element-wise", shape=repr(shape), source=repr(o), expected=repr(exp), got=repr(got))
+    return n
+
+
 def run(rep, tier, seed):
     from adaptix import ProviderNotFoundError
     from adaptix.conversion import impl_converter
@@ -325,8 +439,9 @@ def run(rep, tier, seed):
     for k, err in ev.errors:
         rep.violation("coq-eval-error", "harness-error", {"what": err[-1500:]}, no_input=True)
     lookalike_constants(rep)
+    n_cont = container_block(rep, r, tier)
     rep.cov.update({
-        "evaluations": stats["runs"] + stats["no_converter"],
+        "evaluations": stats["runs"] + stats["no_converter"] + n_cont,
         "distinct_nontrivial": stats["programs"] - stats["no_converter"],
         "rule": "source: dataclass with 2-4 fields over 7 names, int or nested model (depth <= 2); destination: each field kept / "
                 "dropped (15%) / renamed (20%), 0-2 added fields, required or defaulted, nested models derived recursively; 0-2 "
@@ -334,8 +449,10 @@ def run(rep, tier, seed):
                 "(source by name - also an unknown name - or from_param; optional coercer), link_constant, link_function "
                 "(keyword-only parameters from fields, positional ones from parameters, sometimes an unknown name), "
                 "allow_unlinked_optional; destination predicates drawn from the field names of every nesting level; the "
-                "converter is made by impl_converter on a stub with that signature and run on 2 objects; non-trivial = a "
-                "converter was produced",
+                "converter is made by impl_converter on a stub with that signature and run on 2 objects; plus 9 container shapes "
+                "(list / Optional / dict / Sequence and their two-level nestings) of models as the converter's own argument with an "
+                "extra parameter named like an element field, and as model fields next to an Optional scalar with a coercer, values "
+                "with empty containers, None and 0, against an element-wise reference; non-trivial = a converter was produced",
         "samples": samples or [{"note": "none"}],
         "distribution": stats,
     })
